@@ -327,6 +327,14 @@ func VH_Revisions(a []int) {
 		collide = true
 		sym.Cover("engineered name collision")
 	}
+	// the stored status may be stale (a failed status write, a crash between the
+	// revision write and the status write): it names any stored revision or none
+	if opts&32 != 0 {
+		if k := sym.Pick("status.updateRevision", len(st)+1); k > 0 {
+			set.Status.UpdateRevision = st[k-1].rev.Name
+			sym.Cover("stored status names a stored revision as the update revision")
+		}
+	}
 	w.sets = []*apps.StatefulSet{set}
 	w.apiSets = []*apps.StatefulSet{set.DeepCopy()}
 	if opts&8 != 0 {
